@@ -22,11 +22,11 @@ def enum_values(src, name, rel):
         item = item.strip()
         if not item:
             continue
-        mm = re.match(r'^(\w+)\s*(?:=\s*(-?\s*\d+))?$', item)
+        mm = re.match(r'^(\w+)\s*(?:=\s*(-?\s*(?:0[xX][0-9a-fA-F]+|\d+)))?$', item)
         if not mm:
             raise TranslateError('%s: enum %s: cannot parse item %r' % (rel, name, item))
         if mm.group(2) is not None:
-            nxt = int(mm.group(2).replace(' ', ''))
+            nxt = int(mm.group(2).replace(' ', ''), 0)
         vals[mm.group(1)] = nxt
         nxt += 1
     return vals
@@ -275,6 +275,52 @@ def gen_real_filters(repo):
     m = one(r'else\s+if\s*\(\s*\(\s*r\s*==\s*FILTER_DENIED_TEMPORARY\s*\)\s*&&\s*\(\s*getsetting\s*\(\s*ds\s*,\s*"([^"]*)"\s*,\s*&tmpt\s*\)\s*<=\s*0\s*\)\s*\)\s*\{.*?netwrite\s*\(\s*"((?:[^"\\]|\\.)*)"\s*\)\s*!=\s*0\s*\)\s*return\s+FILTER_ERROR\s*;\s*return\s+(FILTER_\w+)\s*;', sp, 'cb_spf temporary branch', re.S)
     out += lit('KEY_SPF_FAIL_HARD', m[0]) + lit('REPLY_SPF_TEMP', m[1])
     out += '(* what cb_spf returns after it has sent REPLY_SPF_TEMP itself *)\nDefinition SPF_TEMP_RETURNS : Z := %s.\n' % m[2].replace('FILTER_', 'FR_')
+    # dnsbl.c / namebl.c
+    rel = 'qsmtpd/filters/dnsbl.c'
+    db = func_body(strip_comments(read(repo, rel)), 'cb_dnsbl', rel)
+    out += lit('REPLY_DNSBL', one(r'netmsg\[\]\s*=\s*\{\s*"((?:[^"\\]|\\.)*)"', db, 'cb_dnsbl reply'))
+    m = one(r'whitelisted by\s*",\s*c\[(\w+)\]', db, 'cb_dnsbl whitelist log entry')
+    if m not in ('i', 'j'):
+        raise TranslateError('cb_dnsbl: whitelist log line indexes c[] with %r' % m)
+    out += '(* the "whitelisted by" log line of cb_dnsbl names c[j] (the whitelist entry that matched), not c[i] *)\n'
+    out += 'Definition DNSBL_LOG_WHITELIST_BY_J : bool := %s.\n' % ('true' if m == 'j' else 'false')
+    rel = 'qsmtpd/filters/namebl.c'
+    nb = func_body(strip_comments(read(repo, rel)), 'cb_namebl', rel)
+    first_assign = nb.index('*t = ')
+    out += '(* cb_namebl reads blocktype[*t] before it has assigned *t (in the initialiser of its log message) *)\n'
+    out += 'Definition NAMEBL_BLOCKTYPE_ON_ENTRY : bool := %s.\n' % ('true' if 'blocktype[*t]' in nb[:first_assign] else 'false')
+    out += lit('REPLY_NAMEBL', one(r'netmsg\[\]\s*=\s*\{\s*"((?:[^"\\]|\\.)*)"', nb, 'cb_namebl reply'))
+    # fromdomain.c
+    import ipaddress
+    rel = 'qsmtpd/filters/fromdomain.c'
+    fsrc = strip_comments(read(repo, rel))
+    fl = enum_values(fsrc, 'filter_fromdomain_flags', rel)
+    for k, n in (('FROMDOMAIN_DOMAIN_IN_DNS', 'FD_BIT_DNS'), ('FROMDOMAIN_LOCALHOST', 'FD_BIT_LOCALHOST'), ('FROMDOMAIN_PRIVATE', 'FD_BIT_PRIVATE')):
+        out += 'Definition %s : Z := %s.\n' % (n, zlit(fl[k]))
+    def lens(arr):
+        m = re.search(r'\}\s*' + arr + r'\[\]\s*=\s*\{(.*?)\n\};', fsrc, re.S)
+        if not m:
+            raise TranslateError('fromdomain.c: initialiser of %s not found' % arr)
+        return [int(x) for x in re.findall(r'\.len\s*=\s*(\d+)', m.group(1))]
+    l4, l6 = lens('reserved_netsv4'), lens('reserved_netsv6')
+    n4 = dict((int(i), int(v, 16)) for i, v in re.findall(r'reserved_netsv4\[(\d+)\]\.net\.s_addr\s*=\s*htonl\(0x([0-9a-fA-F]+)\)', fsrc))
+    n6 = dict((int(i), a) for a, i in re.findall(r'inet_pton\(AF_INET6,\s*"([^"]+)",\s*&reserved_netsv6\[(\d+)\]\.net\)', fsrc))
+    if sorted(n4) != list(range(len(l4))) or sorted(n6) != list(range(len(l6))) or not l4 or not l6:
+        raise TranslateError('fromdomain.c: reserved network tables and init_nets() do not match')
+    out += 'Definition FD_NETS4 : list (list N * N) := [%s].\n' % '; '.join(
+        '(%s, %d%%N)' % (coq_bytes(list(n4[i].to_bytes(4, 'big'))), l4[i]) for i in range(len(l4)))
+    out += 'Definition FD_NETS6 : list (list N * N) := [%s].\n' % '; '.join(
+        '(%s, %d%%N)' % (coq_bytes(list(ipaddress.IPv6Address(n6[i]).packed)), l6[i]) for i in range(len(l6)))
+    fb = func_body(fsrc, 'cb_fromdomain', rel)
+    out += lit('KEY_FROMDOMAIN', one(r'u\s*=\s*getsettingglobal\s*\(\s*ds\s*,\s*"([^"]*)"', fb, 'cb_fromdomain key'))
+    for case_, name in (('DNS_ERROR_TEMP', 'REPLY_FD_TEMP'), ('DNS_ERROR_PERM', 'REPLY_FD_PERM'), ('1', 'REPLY_FD_NOMX'), ('2', 'REPLY_FD_NULLMX')):
+        out += lit(name, one(r'case\s+' + case_ + r'\s*:.*?errmsg\s*=\s*"((?:[^"\\]|\\.)*)"', fb, 'cb_fromdomain case ' + case_, re.S))
+    out += lit('REPLY_FD_UNROUTABLE', one(r'logmsg\s*=\s*"unroutable MX"\s*;\s*return\s+netwrite\s*\(\s*"((?:[^"\\]|\\.)*)"', fb, 'cb_fromdomain unroutable reply'))
+    if not re.search(r'net\s*==\s*0\s*\)\s*\|\|\s*\(\s*net\s*==\s*htonl\(0x7f000000\)', fb):
+        raise TranslateError('cb_fromdomain: loopback test (0/8, 127/8) not found')
+    qd = strip_comments(read(repo, 'include/qdns.h'))
+    de = enum_values(qd, 'dns_errors', 'include/qdns.h')
+    out += 'Definition DNS_ERROR_TEMP_Z : Z := %s.\nDefinition DNS_ERROR_PERM_Z : Z := %s.\n' % (zlit(de['DNS_ERROR_TEMP']), zlit(de['DNS_ERROR_PERM']))
     return out
 
 
